@@ -78,7 +78,10 @@ def main():
         ],
         "checks": checks,
         "not_applicable": na,
-        "notes": "One integer (VERIF_SEED) decides every run: run_seed = blake2(VERIF_SEED, property, run_index). Exit 2 = HARNESS-ERROR (neither pass nor violation).",
+        "notes": "One integer (VERIF_SEED) decides every run: run_seed = blake2(VERIF_SEED, property, run_index). Exit 2 = HARNESS-ERROR (neither pass nor violation). "
+                 "No hook in /repo: every seam is public API. /repo carries nine unguarded 'fix:' commits (genuine defects found by the checks, listed as status=fixed in "
+                 "/verif/known_findings.json and in DESIGN.md section 10); findings that are recorded rather than repaired are status=known there and are matched by "
+                 "predicates in the check modules. Seeded changes used to test the machinery: /verif/seeded/<id>/ (DESIGN.md section 13).",
     }
     with open(os.path.join(ROOT, "MANIFEST.json"), "w") as f:
         json.dump(man, f, indent=1)
